@@ -413,33 +413,6 @@ Qed.
 Lemma tree_eqb_refl : forall a, tree_eqb a a = true.
 Proof. induction a as [|x a IH]; cbn; [reflexivity|]. now rewrite N.eqb_refl, IH. Qed.
 
-Lemma split_at_last : forall (f : name -> bool) A x,
-  (forall y, In y A -> f y = false) -> f x = true -> split_at_first f (A ++ [x]) = (A, [x]).
-Proof.
-  intros f A x HA Hx. unfold split_at_first. rewrite (position_char f (A ++ [x]) (length A) x).
-  - rewrite firstn_app, Nat.sub_diag, firstn_all, skipn_app, skipn_all, Nat.sub_diag. cbn.
-    now rewrite app_nil_r.
-  - rewrite firstn_app, Nat.sub_diag, firstn_all. cbn. rewrite app_nil_r. exact HA.
-  - rewrite skipn_app, skipn_all, Nat.sub_diag. reflexivity.
-  - exact Hx.
-Qed.
-
-Lemma delete_last : forall t0 A x,
-  t_applied t0 = A ++ [x] -> ~ In x A -> ~ In x (t_unapplied t0) -> ~ In x (t_hidden t0) ->
-  delete_patches (fun n => name_eqb n x) t0 =
-  (set_updated (set_lists t0 A (t_unapplied t0) (t_hidden t0)) (up_set (t_updated t0) x None), []).
-Proof.
-  intros t0 A x Ha HA HU HH. unfold delete_patches. rewrite Ha, split_at_last.
-  - assert (Hf : forall l, ~ In x l -> filter (fun n => name_eqb n x) l = []
-                           /\ filter (fun n => negb (name_eqb n x)) l = l).
-    { intros l Hl. split; [apply filter_none|apply filter_all]; intros y Hy;
-        destruct (name_eqb_spec y x) as [->|Hn]; try reflexivity; contradiction. }
-    destruct (Hf _ HU) as [-> ->]. destruct (Hf _ HH) as [-> ->].
-    cbn [filter]. rewrite name_eqb_refl. cbn [negb app]. reflexivity.
-  - intros y Hy. apply name_eqb_neq. intros ->. contradiction.
-  - apply name_eqb_refl.
-Qed.
-
 Definition refresh_body (pn tmpname : name) (t : txn) : tres :=
   match t_patch t pn, t_patch t tmpname with
   | Some pc, Some tc =>
@@ -502,6 +475,61 @@ Proof.
   rewrite Epn. reflexivity.
 Qed.
 
+Lemma last_error_snoc : forall (l : list name) n, last_error l = Some n -> exists l', l = l' ++ [n].
+Proof.
+  intros l n H. unfold last_error in H. destruct (rev l) as [|x r] eqn:E; [discriminate|].
+  injection H as ->. exists (rev r). rewrite <- (rev_involutive l), E. reflexivity.
+Qed.
+
+(* for the top patch the closure of refresh is [refresh_body] *)
+Lemma after_name_last : forall pn l r, ~ In pn l -> after_name pn ((l ++ [pn]) ++ r) = r.
+Proof.
+  intros pn l r. induction l as [|x l IH]; intros Hn; cbn [app after_name].
+  - now rewrite name_eqb_refl.
+  - destruct (name_eqb_spec x pn) as [->|Hx]; [exfalso; apply Hn; now left|].
+    apply IH. intros Hi. apply Hn. now right.
+Qed.
+
+Lemma set_tmp_same : forall t, t_tmp_id t = None -> t_tmp_content t = [] -> set_tmp t None [] = t.
+Proof. intros [] H1 H2. cbn in *. subst. reflexivity. Qed.
+
+Lemma delete_tmp_fields : forall f t,
+  t_tmp_id (fst (delete_patches f t)) = t_tmp_id t
+  /\ t_tmp_content (fst (delete_patches f t)) = t_tmp_content t.
+Proof. intros f t. unfold delete_patches. destruct (split_at_first f (t_applied t)). split; reflexivity. Qed.
+
+Lemma refresh_absorb_top : forall pn tmpname t l,
+  t_applied t = (l ++ [pn]) ++ [tmpname] -> NoDup (t_applied t) ->
+  t_tmp_id t = None -> t_tmp_content t = [] ->
+  refresh_absorb pn tmpname t = refresh_body pn tmpname t.
+Proof.
+  intros pn tmpname t l Ha Hnd Hid Hct. unfold refresh_absorb, refresh_body.
+  assert (Hm : mem pn (t_applied t) = true).
+  { apply mem_In. rewrite Ha. apply in_or_app. left. apply in_or_app. right. now left. }
+  assert (Hl : ~ In pn l).
+  { rewrite Ha in Hnd. apply NoDup_app_iff in Hnd as [Hnd _]. apply NoDup_app_iff in Hnd as [_ [_ Hd]].
+    intros Hi. apply (Hd pn Hi). now left. }
+  rewrite Hm. cbv zeta. rewrite Ha, (after_name_last pn l [tmpname] Hl).
+  cbn [length Nat.ltb Nat.leb tbind].
+  destruct (t_patch t pn) as [pc|]; [|reflexivity].
+  destruct (t_patch t tmpname) as [tc|]; [|reflexivity].
+  unfold last_error. cbn [rev app hd_error removelast]. rewrite name_eqb_refl. cbn [negb].
+  unfold refresh_commit.
+  assert (Hfin : forall t0 : txn, t_tmp_id t0 = None -> t_tmp_content t0 = [] ->
+            push_patches [] false t0 = TOk t0).
+  { intros t0 H1 H2. unfold push_patches. cbn [push_list]. now rewrite set_tmp_same. }
+  destruct (tree_eqb _ _); cbn [fst snd].
+  - destruct (delete_tmp_fields (fun n => name_eqb n tmpname) t) as [D1 D2].
+    destruct (delete_patches _ t) as [t3 inc]. cbn [fst tbind] in *. apply Hfin; congruence.
+  - unfold put. cbv beta iota. cbn [fst snd].
+    match goal with |- context [delete_patches ?f ?t0] =>
+      destruct (delete_tmp_fields f t0) as [D1 D2]; destruct (delete_patches f t0) as [t3 inc] end.
+    cbn [fst] in D1, D2. unfold update_patch. destruct (t_patch t3 pn); [|reflexivity].
+    cbn [tbind]. apply Hfin.
+    + rewrite t_tmp_id_set_updated, D1. exact Hid.
+    + rewrite t_tmp_content_set_updated, D2. exact Hct.
+Qed.
+
 Definition refresh_opts (apc : bool) : topts := opts CDisallow apc false true true false.
 
 Lemma refresh_exec_ok : forall apc w t so pn th,
@@ -549,7 +577,7 @@ Lemma refresh_second : forall w2 so s2 A tmpname tmpc pn pc w' x,
   pm_get (s_patches s2) tmpname = Some tmpc -> pm_get (s_patches s2) pn = Some pc ->
   match open_stack PAllow w2 with
   | None => err2 w2
-  | Some op2 => transact op2 (refresh_opts (w_apc (op_world op2))) (refresh_body pn tmpname) MOp
+  | Some op2 => transact op2 (refresh_opts (w_apc (op_world op2))) (refresh_absorb pn tmpname) MOp
   end = (w', x) ->
   x = X0 /\ store_extends (w_objs w2) (w_objs w')
   /\ ((tree_eqb (tree_of (w_objs w2) tmpc) (tree_of (w_objs w2) pc) = true
@@ -565,7 +593,7 @@ Proof.
   destruct (open_allow_ok w2 so s2 Hi Hs Es) as [b Eo]. rewrite Eo in E.
   pose proof Hi as [_ [Hst _]]. destruct (Hst so s2 Es) as [[Hnd _] _].
   unfold all_of in Hnd. rewrite Ha in Hnd.
-  apply NoDup_app_iff in Hnd as [Hnd1 [_ Hdis]]. apply NoDup_app_iff in Hnd1 as [_ [_ HdA]].
+  apply NoDup_app_iff in Hnd as [Hnd1 [_ Hdis]]. pose proof Hnd1 as HndA1. apply NoDup_app_iff in Hnd1 as [_ [_ HdA]].
   assert (HA : ~ In tmpname A) by (intros Hin; apply (HdA tmpname Hin); now left).
   assert (HUH : ~ In tmpname (s_unapplied s2 ++ s_hidden s2)).
   { apply Hdis. apply in_or_app. right. now left. }
@@ -576,6 +604,11 @@ Proof.
   assert (Hne' : name_eqb tmpname pn = false) by (apply name_eqb_neq; congruence).
   unfold transact in E. cbn [op_initialized negb] in E.
   set (op2 := mkOpened _ _ _ _) in E. set (t := begin_txn op2 (refresh_opts _)) in E.
+  destruct (last_error_snoc _ _ Hl) as [l0 Hl0].
+  rewrite (refresh_absorb_top pn tmpname t l0) in E;
+    [|change (t_applied t) with (s_applied s2); now rewrite Ha, Hl0
+     |change (t_applied t) with (s_applied s2); rewrite Ha; exact HndA1
+     |reflexivity|reflexivity].
   assert (Hcur : cur_state (op_world op2) = Some s2).
   { unfold cur_state. cbn. now rewrite Hs. }
   assert (Hst_top : s_top s2 = tmpc) by (eapply s_top_last; eauto).
@@ -688,7 +721,7 @@ Proof.
 Qed.
 
 Lemma run_refresh_eq : forall w,
-  run_refresh w =
+  run_refresh w None =
   match open_stack PAllow w with
   | None => err2 w
   | Some op =>
@@ -709,13 +742,18 @@ Lemma run_refresh_eq : forall w,
               | (w2, X0) =>
                   match open_stack PAllow w2 with
                   | None => err2 w2
-                  | Some op2 => transact op2 (refresh_opts (w_apc (op_world op2))) (refresh_body pn tmpname) MOp
+                  | Some op2 => transact op2 (refresh_opts (w_apc (op_world op2))) (refresh_absorb pn tmpname) MOp
                   end
               | other => other
               end
         end
   end.
-Proof. reflexivity. Qed.
+Proof.
+  intros w. unfold run_refresh. cbv beta iota.
+  destruct (open_stack PAllow w) as [op|]; [|reflexivity]. cbv zeta.
+  destruct (negb (head_top_ok op)); [reflexivity|].
+  destruct (last_error (s_applied (op_state op))) as [pn|]; reflexivity.
+Qed.
 
 Lemma open_allow_init : forall w op,
   open_stack PAllow w = Some op -> op_initialized op = true ->
@@ -737,7 +775,7 @@ Proof.
 Qed.
 
 Lemma refresh_spec : forall w w' x,
-  Inv w -> run_refresh w = (w', x) ->
+  Inv w -> run_refresh w None = (w', x) ->
   store_extends (w_objs w) (w_objs w')
   /\ ((kept w w' /\ x <> X0)
       \/ exists s pn pc cpc,
@@ -955,7 +993,8 @@ Proof.
   destruct c; try discriminate; cbn [step].
   - apply open_only_sat; [apply Qid_mono|discriminate|exact Hw].
   - (* refresh *)
-    destruct (run_refresh w) as [w' x] eqn:E. cbn [fst].
+    destruct patch as [o|]; [discriminate|].
+    destruct (run_refresh w None) as [w' x] eqn:E. cbn [fst].
     destruct (refresh_spec w w' x Hi E) as [Hx [[Hk _]|(s & pn & pc & cpc & _ & Hc & _ & Hpc & Hg & Hcase)]].
     + now apply (wsat_kept _ w); [apply Qid_mono| | |].
     + destruct Hcase as [[_ Hk]|[_ (o & c & Ho & Hme & Hsu & Hpat)]].
@@ -1044,7 +1083,7 @@ Lemma unchanged_refresh_no_commit :
     Inv w -> cur_state w = Some s -> last_error (s_applied s) = Some top ->
     pm_get (s_patches s) top = Some otop ->
     tree_eqb (w_wt w) (tree_of (w_objs w) otop) = true ->
-    step lower_s w CRefresh = (w', X0) ->
+    step lower_s w (CRefresh None) = (w', X0) ->
     forall n, patch_commit w' n = patch_commit w n.
 Proof.
   intros lower_s HL w w' s top otop Hi Hc Hl Hp Htr E. cbn [step] in E.
